@@ -1,6 +1,7 @@
-use crate::state::{Config, State, UnstakeRequest, IbcWaitingForReply};
-use crate::state::ibc::IBCTransfer;
-use crate::milky_way::staking::Batch;
+pub use crate::state::{Config, State, UnstakeRequest, IbcWaitingForReply, NativeChainConfig, ProtocolChainConfig, ProtocolFeeConfig};
+pub use crate::state::ibc::{IBCTransfer, PacketLifecycleStatus};
+pub use crate::milky_way::staking::{Batch, BatchStatus};
+pub use crate::error::ContractError;
 use crate::cw2::ContractVersion;
 verus! {
 
